@@ -51,24 +51,40 @@ class SpinTimeout(Livelock):
     not.  Raised from a SIGVTALRM handler, so it surfaces inside the spinning code like a seam's Livelock does."""
 
 
-SPIN_CPU_S = 8.0
+SPIN_CPU_S = 10.0
+
+
+_SPIN_FIRED = 0
 
 
 def _spin_handler(signum, frame):
+    global _SPIN_FIRED  # noqa: PLW0603
+    _SPIN_FIRED += 1
+    if os.environ.get("VERIF_SPIN_TRACE") and _SPIN_FIRED <= 2:
+        import faulthandler  # noqa: PLC0415
+
+        faulthandler.dump_traceback(all_threads=False)
     raise SpinTimeout(f"no simulated wait for {SPIN_CPU_S:.0f} s of CPU time")
 
 
+_SPIN_INSTALLED = False
+
+
 def arm_spin_timer() -> None:
-    """(Re)start the CPU-time budget; called when a scenario starts and at every simulated wait."""
+    """(Re)start the CPU-time budget; called when a scenario starts, when a simulated world is activated and at every
+    simulated wait.  Does nothing outside a scenario (no handler installed)."""
     import signal  # noqa: PLC0415
 
-    signal.setitimer(signal.ITIMER_VIRTUAL, SPIN_CPU_S, 2.0)
+    if _SPIN_INSTALLED:
+        signal.setitimer(signal.ITIMER_VIRTUAL, SPIN_CPU_S, 2.0)
 
 
 def install_spin_timer():
     import signal  # noqa: PLC0415
 
+    global _SPIN_INSTALLED  # noqa: PLW0603
     old = signal.signal(signal.SIGVTALRM, _spin_handler)
+    _SPIN_INSTALLED = True
     arm_spin_timer()
     return old
 
@@ -76,7 +92,9 @@ def install_spin_timer():
 def remove_spin_timer(old) -> None:
     import signal  # noqa: PLC0415
 
+    global _SPIN_INSTALLED  # noqa: PLW0603
     signal.setitimer(signal.ITIMER_VIRTUAL, 0)
+    _SPIN_INSTALLED = False
     signal.signal(signal.SIGVTALRM, old if old is not None else signal.SIG_DFL)
 
 
